@@ -9,6 +9,14 @@
                not entered again before an opening delimiter (here: it neither is the loop function nor calls
                token_as_binary_op). That shape is sufficient for left nesting of chains of any length; the one-level
                "rotation" idiom (matching on the parsed rhs being a BinaryOperator) is recognised and rejected.
+  OPERAND-CLOSED  every function reachable as an operand of the infix loop that itself calls parse_expression looks at or
+               consumes the next token afterwards on every non-error path (the sub-expression is delimited: `if c {`, `(e)`,
+               `[a, b]`); the statement forms let / assignment / return are the reviewed exceptions. An operand parser with an
+               open tail (`else if` parsed by parse_expression) swallows the rest of the chain.
+  USED-FLAG-RECURSE  an operand contributes exactly one value to the chain only if the parser's value-usage pass
+               (set_is_used_expr and its helpers) has decided `value_is_used` for every expression below it (the default is
+               true, and the evaluator pushes a value for every expression flagged true). Every field of every Expression_
+               variant whose type contains expressions must be bound by its arm and handed to a function of the pass.
 Decides the grouping structure, not the values chains evaluate to.
 """
 from .. import shape as S
@@ -38,6 +46,259 @@ def kinds_in_pat(p):
         if n["k"] == "PPath" and "BinaryOperatorKind::" in n["path"]:
             out.append(n["path"].split("::")[-1])
     return out
+
+
+import re as _re
+
+_TYNAME = _re.compile(r"[A-Za-z_][A-Za-z0-9_]*")
+
+
+def ast_types(sh):
+    """name -> list of (field name or index, type text) for the structs and enums of the syntax tree."""
+    t = {}
+    for n in S.walk(S.file_items(sh, AST)):
+        if n["k"] == "StructDef":
+            t[n["name"]] = [(f["name"], f["ty"]) for f in n["fields"]]
+        elif n["k"] == "Enum":
+            t[n["name"]] = [("%s.%d" % (v["name"], i), f["ty"]) for v in n["variants"] for i, f in enumerate(v["fields"])]
+    return t
+
+
+def bearing_names(types):
+    """type names whose values contain an Expression (least fixpoint from `Expression`)."""
+    b = {"Expression"}
+    ch = True
+    while ch:
+        ch = False
+        for name, fields in types.items():
+            if name not in b and any(set(_TYNAME.findall(ty)) & b for _, ty in fields):
+                b.add(name)
+                ch = True
+    return b
+
+
+def leaves(ty, types, bearing, depth=0):
+    """field paths (tuples of field names) under a value of type `ty` that hold expressions handled by the flag pass
+    itself: a type that mentions Expression/Block/FunInfo directly is one leaf; a struct is opened."""
+    names = set(_TYNAME.findall(ty))
+    if names & {"Expression", "Block", "FunInfo"} or depth > 4:
+        return [()]
+    out = []
+    for nm in sorted(names & bearing):
+        for fname, fty in types.get(nm, []):
+            if set(_TYNAME.findall(fty)) & bearing:
+                out += [(fname,) + l for l in leaves(fty, types, bearing, depth + 1)]
+    return out
+
+
+def _taint(body, seeds):
+    """names in `body` bound (let / for / if-let / match) from an expression that mentions a tainted name."""
+    tainted = set(seeds)
+    ch = True
+    while ch:
+        ch = False
+        for n in S.walk(body):
+            k = n["k"]
+            src = pat = None
+            if k == "Let" and n.get("init") is not None:
+                src, pat = n["init"], [n["pat"]]
+            elif k == "For":
+                src, pat = n["iter"], [n["pat"]]
+            elif k == "LetCond":
+                src, pat = n["e"], [n["pat"]]
+            elif k == "Match":
+                src, pat = n["e"], [a["pat"] for a in n["arms"]]
+            if src is None or not (S.idents_in(src) & tainted):
+                continue
+            for p_ in pat:
+                for b_ in S.pat_bindings(p_):
+                    if b_ not in tainted:
+                        tainted.add(b_)
+                        ch = True
+    return tainted
+
+
+def flag_pass_family(sh):
+    out = []
+    S._fns_in(S.file_items(sh, PAR), out)
+    return {fn["name"]: fn for impl, fn, test in out if not test and impl is None and fn["name"].startswith("set_is_used_")}
+
+
+def used_flag_recurse(sh, res):
+    """USED-FLAG-RECURSE: the pass that decides which expressions push a value reaches every sub-expression."""
+    types = ast_types(sh)
+    bearing = bearing_names(types)
+    fam = flag_pass_family(sh)
+    if "set_is_used_expr" not in fam:
+        raise M.MissingAnchor("parser::set_is_used_expr not found")
+    variants = {v["name"]: v["fields"] for v in S.find_enum(sh, AST, "Expression_")["variants"]}
+    fn = fam["set_is_used_expr"]
+    ms = [m for m in S.matches_in(fn["body"]) if any("Expression_::" in (a.get("pat_txt") or "") for a in m["arms"])]
+    if not ms:
+        raise M.MissingAnchor("set_is_used_expr has no match over Expression_")
+    m = ms[0]
+
+    def calls_with(body, tainted, leaf):
+        for n in S.walk(body):
+            if n["k"] == "Call" and n["f"]["k"] == "Path" and n["f"]["path"] in fam:
+                for a in n["args"]:
+                    if not (S.idents_in(a) & tainted):
+                        continue
+                    if not leaf:
+                        return n
+                    flds = {x["name"] for x in S.walk(a) if x["k"] == "Field"}
+                    if leaf[-1] in flds or not flds:
+                        return n
+        return None
+
+    seen = set()
+    n_ob = 0
+
+    def alternatives(p):
+        if p["k"] == "POr":
+            for c in p["cases"]:
+                yield from alternatives(c)
+        else:
+            yield p
+    for arm in m["arms"]:
+        for alt in alternatives(arm["pat"]):
+            v = S.pat_variant(alt)
+            if v == "_":
+                wild = [x for x in variants if x not in seen and any(set(_TYNAME.findall(f["ty"])) & bearing for f in variants[x])]
+                for x in wild:
+                    res.bad("USED-FLAG-RECURSE", "parser::set_is_used_expr # %s # wildcard" % x,
+                            "Expression_::%s holds sub-expressions but is handled by a wildcard arm of the value-usage pass" % x, "%s:%d" % (PAR, S.line(arm)))
+                continue
+            if v not in variants:
+                continue
+            seen.add(v)
+            elems = alt.get("elems", []) if alt["k"] == "PTupleStruct" else []
+            for i, f in enumerate(variants[v]):
+                if not (set(_TYNAME.findall(f["ty"])) & bearing):
+                    continue
+                if i >= len(elems):
+                    res.bad("USED-FLAG-RECURSE", "parser::set_is_used_expr # %s.%d # unbound" % (v, i),
+                            "field %d of Expression_::%s (%s) holds sub-expressions but the arm does not bind it" % (i, v, f["ty"]), "%s:%d" % (PAR, S.line(arm)))
+                    continue
+                e = elems[i]
+                if S.pat_variant(e) == "None":
+                    continue
+                binds = set(S.pat_bindings(e))
+                if not binds:
+                    res.bad("USED-FLAG-RECURSE", "parser::set_is_used_expr # %s.%d # ignored" % (v, i),
+                            "field %d of Expression_::%s (%s) holds sub-expressions but the arm ignores it, so `value_is_used` is never decided below it" % (i, v, f["ty"]), "%s:%d" % (PAR, S.line(arm)))
+                    continue
+                tainted = _taint(arm["body"], binds)
+                for leaf in leaves(f["ty"], types, bearing):
+                    n_ob += 1
+                    c = calls_with(arm["body"], tainted, leaf)
+                    key = "parser::set_is_used_expr # %s.%d%s" % (v, i, "".join("." + x for x in leaf))
+                    if c is None:
+                        res.bad("USED-FLAG-RECURSE", key + " # no-recursion",
+                                "the arm for Expression_::%s does not pass %s to the value-usage pass: statements below it keep the default `value_is_used = true` "
+                                "and push stray values between the operands of the enclosing expression" % (v, "field %d%s" % (i, "".join("." + x for x in leaf))), "%s:%d" % (PAR, S.line(arm)))
+                    else:
+                        res.ok("USED-FLAG-RECURSE", key + " -> " + c["f"]["path"])
+    for v in variants:
+        if v not in seen and any(set(_TYNAME.findall(f["ty"])) & bearing for f in variants[v]) and not any(
+                S.pat_variant(alt) == "_" for arm in m["arms"] for alt in alternatives(arm["pat"])):
+            res.bad("USED-FLAG-RECURSE", "parser::set_is_used_expr # %s # no arm" % v, "no arm handles Expression_::%s" % v, "%s:%d" % (PAR, S.line(m)))
+    # helpers of the family with a syntax-tree parameter
+    for name, hf in sorted(fam.items()):
+        if name == "set_is_used_expr":
+            continue
+        for prm in hf.get("params", []):
+            names = set(_TYNAME.findall(prm["ty"]))
+            if not (names & bearing) or "Expression" in names and name == "set_is_used_expr":
+                continue
+            tainted = _taint(hf["body"], {prm["name"]})
+            n_ob += 1
+            c = None
+            for n in S.walk(hf["body"]):
+                if n["k"] == "Call" and n["f"]["k"] == "Path" and n["f"]["path"] in fam and any(S.idents_in(a) & tainted for a in n["args"]):
+                    c = n
+                    break
+            key = "parser::%s # %s" % (name, prm["ty"].replace("&mut ", "").strip())
+            if c is None:
+                res.bad("USED-FLAG-RECURSE", key + " # no-recursion", "%s does not hand its argument on to the value-usage pass" % name, "%s:%d" % (PAR, S.line(hf)))
+            else:
+                res.ok("USED-FLAG-RECURSE", key + " -> " + c["f"]["path"])
+    res.floor("USED-FLAG-RECURSE", "sub-expression fields that must be visited", n_ob, 30)
+
+
+from .. import dflow as D
+
+# functions in which the last thing parsed may be a full expression (infix loop included) with nothing looked at after it.
+# They take everything up to the end of the enclosing expression, so as an operand they absorb the rest of a chain.
+OPEN_TAIL_OK = {
+    "parser::parse_let": "statement form `let p = e`: the grammar gives it the whole rest of the expression; its value is Unit",
+    "parser::parse_assign": "statement form `x = e`, value Unit",
+    "parser::parse_assign_update": "statement form `x += e`, value Unit",
+    "parser::parse_return": "`return e` never yields a value to the chain",
+}
+INFIX_FN = "parser::parse_expression"
+
+
+def operand_closed(P, res):
+    """OPERAND-CLOSED: every parser function that can produce an operand and calls parse_expression looks at (or consumes)
+    the next token after it on every non-error path to its return -- the sub-expression is delimited."""
+    if INFIX_FN not in P.funcs:
+        raise M.MissingAnchor(INFIX_FN + " not found")
+    E = P.edges()
+
+    def callees(p):
+        return {t for k, t, b in E.get(p, []) if k != "live"}
+    rhs = [c for c in callees(INFIX_FN) if c.startswith("parser::parse_")]
+    if not rhs:
+        raise M.MissingAnchor("parse_expression does not call an operand parser")
+    seen = set(rhs)
+    st = list(rhs)
+    while st:
+        x = st.pop()
+        for c in callees(x):
+            if c.startswith("parser::") and c not in seen and c != INFIX_FN and c in P.funcs:
+                seen.add(c)
+                st.append(c)
+
+    def takes_tokens(n):
+        g = P.funcs.get(n)
+        return g is not None and any("TokenStream" in g.locals[i]["ty"] for i in range(1, g.argc + 1))
+
+    def looks(n):
+        return bool(n) and takes_tokens(n) and not n.endswith("::prev") and not n.endswith("::is_empty")
+    n_sites = 0
+    open_fns = {}
+    for p_ in sorted(seen):
+        f = P.funcs[p_]
+        sites = [(bi, t) for bi, t in f.calls() if M.callee_name(t) == INFIX_FN]
+        if not sites:
+            continue
+        err = set()
+        for sw in D.call_switches(f, "::is_invalid_or_placeholder", None):
+            if sw["true"] is not None:
+                err |= D.edge_dominated(f, sw["bb"], sw["true"])
+        for bi, t in sites:
+            n_sites += 1
+            tgt = t.get("target")
+            if tgt is None:
+                continue
+            insp = [b for b, tt in f.calls() if b != bi and looks(M.callee_name(tt))]
+            r = D.reach_from(f, [tgt], avoid_blocks=set(insp) | err)
+            if r & set(f.exits()):
+                open_fns.setdefault(p_, []).append(t["span"])
+            else:
+                res.ok("OPERAND-CLOSED", "%s: the expression parsed at %s is followed by a look at the next token on every path" % (p_, M.span_loc(t["span"]) if hasattr(M, "span_loc") else t["span"]))
+    for p_, spans in sorted(open_fns.items()):
+        if p_ in OPEN_TAIL_OK:
+            res.ok("OPERAND-CLOSED", "%s has an open tail (reviewed: %s)" % (p_, OPEN_TAIL_OK[p_]))
+        else:
+            res.bad("OPERAND-CLOSED", "%s # open-tail" % p_,
+                    "%s is reachable as an operand of the infix loop and ends with a call to parse_expression that nothing delimits: used inside a chain "
+                    "it swallows the operators that follow it (`a op <this> op b` groups as `a op (<this> op b)`)" % p_, spans[0])
+    for p_ in OPEN_TAIL_OK:
+        if p_ not in P.funcs:
+            raise M.MissingAnchor("%s (reviewed open-tail statement parser) not found" % p_)
+    res.floor("OPERAND-CLOSED", "parse_expression call sites in operand parsers", n_sites, 17)
 
 
 def run(ctx, res):
@@ -231,6 +492,8 @@ def run(ctx, res):
             else:
                 res.ok("INFIX-SHAPE", "parse_expression: loop { op = token_as_binary_op(peek); pop; rhs = %s(); %s = BinaryOperator(%s, op, rhs) }" % (rhs_fn, acc, acc))
                 res.sample({"rule": "INFIX-SHAPE", "accumulator": acc, "rhs_parser": rhs_fn, "line": S.line(c)})
+    used_flag_recurse(sh, res)
+    operand_closed(ctx.P, res)
     res.extra["tables"] = {"two_char_ops": two, "one_char_ops": one, "token_to_kind": t2k}
     res.extra["functions_analysed"] = 5
     res.explanation = (
@@ -241,4 +504,7 @@ def run(ctx, res):
         "accumulator with rhs parsed by a function that cannot itself absorb a following operator; by induction on the number "
         "of operators that loop yields ((x1 op1 x2) op2 x3)... for chains of any length, with one precedence level because "
         "there is a single loop. Parenthesised sub-expressions are parsed by the primary-expression parser and are one operand. "
+        "OPERAND-CLOSED: no operand parser ends in an undelimited parse_expression (statement forms excepted), so an operand "
+        "cannot absorb the operators after it. USED-FLAG-RECURSE: the value-usage pass visits every sub-expression field of every Expression_ variant (including the "
+        "inside of explicit parentheses), a necessary condition for each operand to leave exactly one value. "
         "Values are not computed.")
